@@ -32,6 +32,8 @@ type qdRow struct {
 	Active *bool
 	Born   *time.Time
 	Tags   []string
+	Places []string               // ids of qdPlace entities (fk set)
+	Meta   map[string]interface{} // map field with string / int64 / bool values
 }
 
 func (e *qdRow) GetId() string         { return e.Id }
@@ -49,6 +51,8 @@ func (qdStrategy) FillEntity(e *qdRow, b *TypedBucket) {
 	e.Active = b.GetBool("active")
 	e.Born = b.GetTime("born")
 	e.Tags = b.GetStringList("tags")
+	e.Places = b.GetStringList("places")
+	e.Meta = b.GetMap("meta")
 }
 func (qdStrategy) PersistEntity(e *qdRow, ctx *PersistContext) {
 	ctx.SetString("name", e.Name)
@@ -64,9 +68,44 @@ func (qdStrategy) PersistEntity(e *qdRow, ctx *PersistContext) {
 	}
 	ctx.SetTimeP("born", e.Born)
 	ctx.SetStringList("tags", e.Tags)
+	ctx.SetStringList("places", e.Places)
+	if e.Meta != nil {
+		ctx.SetMap("meta", e.Meta)
+	}
 }
 
+type qdPlace struct {
+	Id    string
+	Name  string
+	Shops []string
+}
+
+func (e *qdPlace) GetId() string         { return e.Id }
+func (e *qdPlace) SetId(id string)       { e.Id = id }
+func (e *qdPlace) GetEntityType() string { return "qdplaces" }
+
+type qdPlaceStrategy struct{}
+
+func (qdPlaceStrategy) NewEntity() *qdPlace { return &qdPlace{} }
+func (qdPlaceStrategy) FillEntity(e *qdPlace, b *TypedBucket) {
+	e.Name = b.GetStringOrError("name")
+	e.Shops = b.GetStringList("shops")
+}
+func (qdPlaceStrategy) PersistEntity(e *qdPlace, ctx *PersistContext) {
+	ctx.SetString("name", e.Name)
+	ctx.SetStringList("shops", e.Shops)
+}
+
+type qdPlaceStore struct{ *BaseStore[*qdPlace] }
 type qdStore struct{ *BaseStore[*qdRow] }
+
+func qdPlaces() []*qdPlace {
+	return []*qdPlace{
+		{Id: "pl1", Name: "alpha", Shops: []string{"s1", "s2"}},
+		{Id: "pl2", Name: "beta", Shops: []string{"s2"}},
+		{Id: "pl3", Name: "al", Shops: nil},
+	}
+}
 
 func qdS(v string) *string   { return &v }
 func qdI(v int64) *int64     { return &v }
@@ -84,14 +123,14 @@ var qdDates = []string{"2019-05-01T00:00:00Z", "2020-01-01T00:00:00Z", "2021-07-
 
 func qdDataset() []*qdRow {
 	return []*qdRow{
-		{Id: "r01", Name: "ann", Alias: qdS("A"), Age: qdI(1), Score: qdF(1.5), Active: qdB(true), Born: qdT(qdDates[0]), Tags: []string{"x"}},
-		{Id: "r02", Name: "bob", Alias: nil, Age: qdI(2), Score: qdF(2), Active: qdB(false), Born: qdT(qdDates[1]), Tags: []string{"x", "y"}},
+		{Id: "r01", Name: "ann", Alias: qdS("A"), Age: qdI(1), Score: qdF(1.5), Active: qdB(true), Born: qdT(qdDates[0]), Tags: []string{"x"}, Places: []string{"pl1"}, Meta: map[string]interface{}{"k": "v", "n": int64(3), "flag": true}},
+		{Id: "r02", Name: "bob", Alias: nil, Age: qdI(2), Score: qdF(2), Active: qdB(false), Born: qdT(qdDates[1]), Tags: []string{"x", "y"}, Places: []string{"pl1", "pl2"}, Meta: map[string]interface{}{"k": "w", "n": int64(10)}},
 		{Id: "r03", Name: "an", Alias: qdS("ab"), Age: nil, Score: nil, Active: nil, Born: nil, Tags: nil},
-		{Id: "r04", Name: "Ann", Alias: qdS(""), Age: qdI(10), Score: qdF(-3.25), Active: qdB(true), Born: qdT(qdDates[2]), Tags: []string{"xy", "a", "b"}},
-		{Id: "r05", Name: "b", Alias: qdS("bob"), Age: qdI(-1), Score: qdF(10), Active: nil, Born: qdT(qdDates[1]), Tags: []string{"y"}},
+		{Id: "r04", Name: "Ann", Alias: qdS(""), Age: qdI(10), Score: qdF(-3.25), Active: qdB(true), Born: qdT(qdDates[2]), Tags: []string{"xy", "a", "b"}, Places: []string{"pl3"}, Meta: map[string]interface{}{"flag": false}},
+		{Id: "r05", Name: "b", Alias: qdS("bob"), Age: qdI(-1), Score: qdF(10), Active: nil, Born: qdT(qdDates[1]), Tags: []string{"y"}, Places: []string{"pl2", "pl3"}, Meta: map[string]interface{}{"k": "", "n": int64(-1)}},
 		{Id: "r06", Name: "cy", Alias: qdS("x y"), Age: qdI(2), Score: nil, Active: qdB(false), Born: nil, Tags: []string{"x", "xy", "y"}},
 		{Id: "r07", Name: "", Alias: nil, Age: qdI(21), Score: qdF(2.5), Active: qdB(true), Born: qdT(qdDates[0]), Tags: []string{"ab"}},
-		{Id: "r08", Name: "di", Alias: qdS("D"), Age: qdI(3), Score: qdF(3), Active: qdB(true), Born: qdT(qdDates[2]), Tags: []string{"A", "x"}},
+		{Id: "r08", Name: "di", Alias: qdS("D"), Age: qdI(3), Score: qdF(3), Active: qdB(true), Born: qdT(qdDates[2]), Tags: []string{"A", "x"}, Places: []string{"pl1", "pl2", "pl3"}, Meta: map[string]interface{}{"k": "v"}},
 	}
 }
 
@@ -174,7 +213,7 @@ func qdAtoms(rng *rand.Rand) qdAtom {
 		f := float64(*r.Age)
 		return &f
 	}
-	switch rng.Intn(17) {
+	switch rng.Intn(22) {
 	case 0: // string comparison
 		f, get := strField()
 		op, lit := cmpOps[rng.Intn(6)], strLits[rng.Intn(len(strLits))]
@@ -305,6 +344,109 @@ func qdAtoms(rng *rand.Rand) qdAtom {
 		}}
 	case 14: // isEmpty
 		return qdAtom{"isEmpty(tags)", func(r *qdRow) bool { return len(r.Tags) == 0 }}
+	case 17, 18: // dotted symbols through an fk set: anyOf / allOf (places.name), anyOf(places) = id, anyOf(places.shops)
+		placeOf := map[string]*qdPlace{}
+		for _, p := range qdPlaces() {
+			placeOf[p.Id] = p
+		}
+		switch rng.Intn(4) {
+		case 0:
+			id := []string{"pl1", "pl2", "pl3", "pl9"}[rng.Intn(4)]
+			return qdAtom{fmt.Sprintf("anyOf(places) = %s", qdQ(id)), func(r *qdRow) bool {
+				for _, p := range r.Places {
+					if p == id {
+						return true
+					}
+				}
+				return false
+			}}
+		case 1:
+			shop := []string{"s1", "s2", "s3"}[rng.Intn(3)]
+			return qdAtom{fmt.Sprintf("anyOf(places.shops) = %s", qdQ(shop)), func(r *qdRow) bool {
+				for _, p := range r.Places {
+					for _, s := range placeOf[p].Shops {
+						if s == shop {
+							return true
+						}
+					}
+				}
+				return false
+			}}
+		}
+		all := rng.Intn(2) == 0
+		op := append(append([]string{}, cmpOps...), "contains")[rng.Intn(7)]
+		lit := []string{"alpha", "beta", "al", "a", "gamma"}[rng.Intn(5)]
+		fn := "anyOf"
+		if all {
+			fn = "allOf"
+		}
+		return qdAtom{fmt.Sprintf("%s(places.name) %s %s", fn, op, qdQ(lit)), func(r *qdRow) bool {
+			for _, p := range r.Places {
+				n := placeOf[p].Name
+				if qdStrOp(&n, op, lit) != all {
+					return !all
+				}
+			}
+			return all
+		}}
+	case 19: // sub-queries over the fk set
+		placeOf := map[string]*qdPlace{}
+		for _, p := range qdPlaces() {
+			placeOf[p.Id] = p
+		}
+		lit := []string{"alpha", "beta", "al", "gamma"}[rng.Intn(4)]
+		shop := []string{"s1", "s2", "s3"}[rng.Intn(3)]
+		matches := func(r *qdRow) int64 {
+			var n int64
+			for _, p := range r.Places {
+				pl := placeOf[p]
+				hasShop := false
+				for _, s := range pl.Shops {
+					if s == shop {
+						hasShop = true
+					}
+				}
+				if pl.Name == lit || hasShop {
+					n++
+				}
+			}
+			return n
+		}
+		sub := fmt.Sprintf("from places where name = %s or anyOf(shops) = %s", qdQ(lit), qdQ(shop))
+		switch rng.Intn(3) {
+		case 0:
+			return qdAtom{"isEmpty(" + sub + ")", func(r *qdRow) bool { return matches(r) == 0 }}
+		case 1:
+			return qdAtom{"not isEmpty(" + sub + ")", func(r *qdRow) bool { return matches(r) != 0 }}
+		}
+		op := cmpOps[rng.Intn(6)]
+		n := int64(rng.Intn(3))
+		return qdAtom{fmt.Sprintf("count(%s) %s %d", sub, op, n), func(r *qdRow) bool { c := matches(r); return qdCmp(op, c < n, c == n) }}
+	case 20: // map field entries (any-typed): string, integer and boolean values compared with a literal of their kind
+		switch rng.Intn(3) {
+		case 0:
+			op, lit := cmpOps[rng.Intn(6)], []string{"v", "w", "", "x"}[rng.Intn(4)]
+			return qdAtom{fmt.Sprintf("meta.k %s %s", op, qdQ(lit)), func(r *qdRow) bool {
+				if s, ok := r.Meta["k"].(string); ok {
+					return qdStrOp(&s, op, lit)
+				}
+				return qdStrOp(nil, op, lit)
+			}}
+		case 1:
+			op, lit := cmpOps[rng.Intn(6)], []int64{3, 10, -1, 0}[rng.Intn(4)]
+			return qdAtom{fmt.Sprintf("meta.n %s %d", op, lit), func(r *qdRow) bool {
+				if n, ok := r.Meta["n"].(int64); ok {
+					f := float64(n)
+					return qdNumOp(&f, op, float64(lit))
+				}
+				return qdNumOp(nil, op, float64(lit))
+			}}
+		}
+		val := func(r *qdRow) bool { b, ok := r.Meta["flag"].(bool); return ok && b }
+		if rng.Intn(2) == 0 {
+			return qdAtom{"meta.flag = true", val}
+		}
+		return qdAtom{"meta.flag = false", func(r *qdRow) bool { return !val(r) }}
 	}
 	// number-to-string coercion: contains on a numeric symbol
 	lit := []string{"1", "2", "0", "-"}[rng.Intn(4)]
@@ -364,9 +506,22 @@ func TestVerifBoundedQueries(t *testing.T) {
 	store.AddSymbol("active", ast.NodeTypeBool)
 	store.AddSymbol("born", ast.NodeTypeDatetime)
 	store.AddSetSymbol("tags", ast.NodeTypeString)
+	places := &qdPlaceStore{NewBaseStore(StoreDefinition[*qdPlace]{EntityType: "qdplaces", EntityStrategy: qdPlaceStrategy{},
+		EntityNotFoundF: func(id string) error { return NewNotFoundError("qdplace", "id", id) }, BasePath: []string{"qd"}})}
+	places.InitImpl(places)
+	places.AddIdSymbol("id", ast.NodeTypeString)
+	places.AddSymbol("name", ast.NodeTypeString)
+	places.AddSetSymbol("shops", ast.NodeTypeString)
+	store.AddFkSetSymbol("places", places)
+	store.AddMapSymbol("meta", ast.NodeTypeAnyType, "meta")
 	rows := qdDataset()
 	err = db.Update(func(tx *bbolt.Tx) error {
 		ctx := NewTxMutateContext(nil, tx)
+		for _, p := range qdPlaces() {
+			if err := places.Create(ctx, p); err != nil {
+				return err
+			}
+		}
 		for _, r := range rows {
 			if err := store.Create(ctx, r); err != nil {
 				return err
